@@ -10,7 +10,7 @@
 #[path = "/repo/src/analyzers_v2/mod.rs"] pub mod analyzers_v2;
 
 mod common;
-mod eng_symtab;
+include!(concat!(env!("OUT_DIR"), "/engines.rs"));
 
 use std::io::{BufRead, Write};
 
@@ -20,9 +20,9 @@ fn main() {
     let engine = args.get(1).map(|s| s.as_str()).unwrap_or("");
     // silence panic messages: a panic is an observation ("PANIC"), reported per case
     std::panic::set_hook(Box::new(|_| {}));
-    let f: fn(&str) -> String = match engine {
-        "symtab" => eng_symtab::run_case,
-        _ => { eprintln!("unknown engine {engine}"); std::process::exit(2); }
+    let f: fn(&str) -> String = match dispatch(engine) {
+        Some(f) => f,
+        None => { eprintln!("unknown engine {engine}"); std::process::exit(2); }
     };
     let stdin = std::io::stdin();
     let stdout = std::io::stdout();
